@@ -122,6 +122,9 @@ def run_for_property(pid: str, spec: dict, root: str, tier: str) -> dict:
     violations is zero must be seen firing on every run); thorough: every
     mutant and every equivalent variant of the property's rules."""
     ms, qs = _select(spec["rules"], canary_only=(tier == "quick"))
+    # a mutant belongs to the property that owns its primary (first listed) rule; further rules
+    # listed on a mutant may or may not fire and are only credited when they do
+    ms = [m for m in ms if m["rules"][0] in spec["rules"]]
     # restrict each variant to the rules of this property
     jobs = [(root, {**m, "rules": [r for r in m["rules"] if r in spec["rules"]]}, "M") for m in ms] + \
            [(root, {**q, "rules": [r for r in q["rules"] if r in spec["rules"]]}, "Q") for q in qs]
